@@ -48,6 +48,10 @@ def h_fit_fault(B, fault="numpy-input"):
         "all-dims-are-sample-dims": lambda: mk().fit(X, ("time", "lat", "lon")),
         "numpy-weights": lambda: mk().fit(X, "time", weights=np.ones((2, 2))),
         "n_modes>rank": lambda: M.single("EOF", n_modes=5, solver="full").fit(X, "time"),
+        # the same request on the other solver routes: the refusal must not live in the exact branch only
+        "n_modes>rank|solver=randomized": lambda: M.single("EOF", n_modes=5, solver="randomized").fit(X, "time"),
+        "n_modes>rank|solver=auto": lambda: M.single("EOF", n_modes=5, solver="auto").fit(X, "time"),
+        "n_modes>rank|ComplexEOF|solver=randomized": lambda: M.single("ComplexEOF", n_modes=5, solver="randomized").fit(X, "time"),
         "n_modes=0": lambda: M.single("EOF", n_modes=0, solver="full").fit(X, "time"),
         "n_modes=-1": lambda: M.single("EOF", n_modes=-1, solver="full").fit(X, "time"),
         "n_modes=1.5": lambda: M.single("EOF", n_modes=1.5, solver="full").fit(X, "time"),
@@ -229,7 +233,7 @@ def configs(tier):
             cfg["options"] = {"full_rank": True}
         out.append(cfg)
 
-    for f in ("numpy-input", "list-of-numpy", "none-input", "string-input", "unknown-sample-dim", "empty-sample-dims", "all-dims-are-sample-dims", "unknown-sample-dim|center=False", "one-unknown-of-two-sample-dims", "one-unknown-of-two-sample-dims|center=False", "one-unknown-of-two-sample-dims|list|center=False", "empty-sample-dims|center=False", "all-dims-are-sample-dims|center=False", "numpy-weights", "n_modes>rank", "n_modes=0", "n_modes=-1", "n_modes=1.5", "n_modes='a'", "n_modes=None", "unknown-solver", "unknown-solver-empty", "n_modes=numpy.int64(2)", "n_modes=numpy.int32(1)", "n_modes=numpy.float64(2.0)"):
+    for f in ("numpy-input", "list-of-numpy", "none-input", "string-input", "unknown-sample-dim", "empty-sample-dims", "all-dims-are-sample-dims", "unknown-sample-dim|center=False", "one-unknown-of-two-sample-dims", "one-unknown-of-two-sample-dims|center=False", "one-unknown-of-two-sample-dims|list|center=False", "empty-sample-dims|center=False", "all-dims-are-sample-dims|center=False", "numpy-weights", "n_modes>rank", "n_modes>rank|solver=randomized", "n_modes>rank|solver=auto", "n_modes>rank|ComplexEOF|solver=randomized", "n_modes=0", "n_modes=-1", "n_modes=1.5", "n_modes='a'", "n_modes=None", "unknown-solver", "unknown-solver-empty", "n_modes=numpy.int64(2)", "n_modes=numpy.int32(1)", "n_modes=numpy.float64(2.0)"):
         add("h_fit_fault", f"fit|{f}", fault=f)
     for k in ("int<=0", "int>rank", "float>1", "float<=0"):
         add("h_nmodes_symbolic", f"n_modes symbolic|{k}", kind=k)
